@@ -48,7 +48,7 @@ func TestC14Binary(t *testing.T) {
 		// (the program then creates the config file with a secret of its own)
 		// (secrets are arbitrary strings: also with $ { } % # and the like, which mean something to shells, to
 		// environment expansion and to YAML - the configured secret is the string as written)
-		secret := "case-secret-" + rapid.StringMatching(`[a-zA-Z0-9]{1,3}`).Draw(rt, "secretHead") + rapid.SampledFrom([]string{"$", "$", "${", "%", "#", ""}).Draw(rt, "secretSpecial") + rapid.StringMatching(`[a-zA-Z0-9]{3,8}[a-zA-Z0-9${}%#!:*&@ -]{3,8}[a-zA-Z0-9]`).Draw(rt, "secretTail")
+		secret := "case-secret-" + rapid.StringMatching(`[a-zA-Z0-9]{1,3}`).Draw(rt, "secretHead") + rapid.SampledFrom([]string{"$", "$", "${", "%", "#", ""}).Draw(rt, "secretSpecial") + rapid.StringMatching(`[a-zA-Z0-9]{3,8}[a-zA-Z0-9${}%#!:*&@ ,;|-]{3,8}[a-zA-Z0-9]`).Draw(rt, "secretTail") + rapid.SampledFrom([]string{"", "", ",second-part-0123456789", ";tail"}).Draw(rt, "secretList")
 		secretHow := rapid.SampledFrom([]string{"flag", "env", "file", "file", "generated", "flag+left-over-file", "env+left-over-file"}).Draw(rt, "secretConfiguredBy")
 		var extraEnv []string
 		// "left-over file": the config file of an earlier run (which had made up a secret) is still there, and
@@ -155,6 +155,16 @@ func TestC14Binary(t *testing.T) {
 		if exp := os.ExpandEnv(secret); exp != secret && exp != "" {
 			_, expandedToken, _ = jwtauth.New("HS256", []byte(exp), nil).Encode(map[string]interface{}{"sub": "bin"})
 		}
+		// ... or by taking it for a list: a part of the secret is not the secret
+		fragmentTokens := map[string]string{}
+		for _, sep := range []string{",", ";", ":", " ", "|"} {
+			for k, part := range strings.Split(secret, sep) {
+				if part != "" && part != secret {
+					_, tok, _ := jwtauth.New("HS256", []byte(part), nil).Encode(map[string]interface{}{"sub": "bin"})
+					fragmentTokens[fmt.Sprintf("signed-with-part-%d-of-the-secret-split-at-%q", k, sep)] = tok
+				}
+			}
+		}
 		leftOverToken := wrongToken
 		if leftOver != "" {
 			_, leftOverToken, _ = jwtauth.New("HS256", []byte(leftOver), nil).Encode(map[string]interface{}{"sub": "bin"})
@@ -167,7 +177,11 @@ func TestC14Binary(t *testing.T) {
 			}
 			if code == 401 || time.Now().After(deadline) {
 				// the server is up and refuses the token signed with the configured secret: whom does it let in?
-				for name, cred := range map[string]string{"wrong-secret": wrongToken, "signed-with-empty-key": emptyKeyToken, "signed-with-left-over-file-secret": leftOverToken, "signed-with-the-secret-after-environment-expansion": expandedToken} {
+				probe := map[string]string{"wrong-secret": wrongToken, "signed-with-empty-key": emptyKeyToken, "signed-with-left-over-file-secret": leftOverToken, "signed-with-the-secret-after-environment-expansion": expandedToken}
+				for name, tok := range fragmentTokens {
+					probe[name] = tok
+				}
+				for name, cred := range probe {
 					if code, _ := do("GET", "/pipelines/", cred, "header"); code == 200 {
 						rt.Fatalf("[C14] secret configured by %s: GET /pipelines/ with credential %q -> 200 (and a token signed with the configured secret is refused)", secretHow, name)
 					}
@@ -177,6 +191,12 @@ func TestC14Binary(t *testing.T) {
 			time.Sleep(20 * time.Millisecond)
 		}
 		creds := map[string]string{"none": "", "garbage": "not.a.token", "wrong-secret": wrongToken, "expired": expired, "empty-bearer": " ", "signed-with-empty-key": emptyKeyToken, "signed-with-left-over-file-secret": leftOverToken, "signed-with-the-secret-after-environment-expansion": expandedToken}
+		// (every part of the secret, as a key of its own, is tried once on a route that changes nothing)
+		for name, tok := range fragmentTokens {
+			if code, _ := do("GET", "/pipelines/", tok, "header"); code != 401 {
+				rt.Fatalf("[C14] secret configured by %s: GET /pipelines/ with credential %q -> %d, want 401", secretHow, name, code)
+			}
+		}
 		n := rapid.IntRange(8, 20).Draw(rt, "probes")
 		for i := 0; i < n; i++ {
 			credName := rapid.SampledFrom([]string{"none", "none", "garbage", "wrong-secret", "expired", "empty-bearer", "signed-with-empty-key", "signed-with-left-over-file-secret", "signed-with-the-secret-after-environment-expansion"}).Draw(rt, "credential")
